@@ -208,7 +208,8 @@ def stepAll (d : DS) (t : List String) : DS × List String :=
       let impl' := match d.impl with
         | some s => implApply d.hm c s t
         | none => none
-      ({ d with c := c', impl := impl' }, lines ++ [showImpl impl'])
+      -- hash modes 4..6 use the library's own string hashes (lookup3), which this model does not compute: no W line
+      ({ d with c := c', impl := impl' }, if d.hm ≥ 4 then lines else lines ++ [showImpl impl'])
 
 def component : Component := { σ := DS, init := { c := none, impl := none, hm := 0 }, step := stepAll }
 end Driver.LhtD
